@@ -172,3 +172,39 @@ func VerifH_C06_load_reader_pairing() {
 		}
 	}
 }
+
+// the concatenation operator charges its result whatever the operand types
+// (string, integer, float in every combination)
+func VerifH_C06_concat_is_charged() {
+	run := vhNewRun()
+	long := ""
+	for len(long) < 120 {
+		long += "x"
+	}
+	var x, y rt.Value
+	switch verifChoose("shape", 5) {
+	case 0:
+		x, y = vhStr(long), vhStr(long)
+	case 1:
+		x, y = vhStr(long), vhInt(nondetInt64("n"))
+	case 2:
+		x, y = vhInt(nondetInt64("n")), vhStr(long)
+	case 3:
+		x, y = vhStr(long), rt.FloatValue(1.5)
+	case 4:
+		x, y = vhInt(7), rt.FloatValue(2.25)
+	}
+	var before, after uint64
+	var res rt.Value
+	var err error
+	run.t.CallContext(rt.RuntimeContextDef{HardLimits: rt.RuntimeResources{Memory: 1 << 30}}, func() error {
+		before = run.t.UsedResources().Memory
+		res, err = rt.Concat(run.t, x, y)
+		after = run.t.UsedResources().Memory
+		return nil
+	})
+	verifAssert(err == nil, "concat-succeeds")
+	s, ok := res.TryString()
+	verifAssert(ok, "concat-gives-a-string")
+	verifAssert(after >= before+uint64(len(s)), "concat-result-is-charged")
+}
